@@ -11,6 +11,7 @@ from sim.util import REPLAY_DIR, canon, source_hashes
 
 class C20Plan(RunPlan):
     prop = "C20"
+    expected_reach = ('context_switches', 'preempted_inside___new__', 'lock_blocked_yields', 'C20.table-count.checked')
     engine = "T"
     quick_runs = 3000
     thorough_runs = 300000
@@ -165,6 +166,7 @@ class C20Plan(RunPlan):
 
 class C19Plan(RunPlan):
     prop = "C19"
+    expected_reach = ('F2', 'C19.a.checked', 'C19.b.checked', 'C19.c.checked', 'C19.c.F2.checked')
     engine = "A"
     level = "fault_enumeration"
     quick_runs = 1200
@@ -377,6 +379,7 @@ def same_outcome(a, b, tol):
 
 class C08Plan(RunPlan):
     prop = "C08"
+    expected_reach = ('F2', 'F4', 'repeat-without-declaration-between', 'repeat-after-declaration', 'C08.baseline.checked')
     engine = "B"
     quick_runs = 1500
     thorough_runs = 40000
@@ -540,6 +543,7 @@ class C08Plan(RunPlan):
 
 class C04Plan(RunPlan):
     prop = "C04"
+    expected_reach = ('F4', 'C04.value.checked.exact-system', 'C04.value.checked')
     engine = "B"
     quick_runs = 5000
     thorough_runs = 150000
@@ -569,6 +573,8 @@ class C04Plan(RunPlan):
 
 class C05Plan(C04Plan):
     prop = "C05"
+    expected_reach = ("F4", "C05.linear.checked", "C05.roundtrip.checked", "C05.via.checked", "C05.self.checked",
+                      "C05.sign.checked")
     quick_runs = 5000
     rule = ("one evaluation = one simulated history as for C04, whose queries are composite: k*q vs k*convert(q) "
             "(k in {0,-1,2,1e-3,7/3}), zero and sign, conversion to the own unit (1e-12), there-and-back (2e-12) and "
@@ -580,6 +586,7 @@ class C05Plan(C04Plan):
 
 class C07Plan(C04Plan):
     prop = "C07"
+    expected_reach = ("F4", "C07.failure.checked", "C07.O-diff.checked", "raise:ConversionNotFound", "raise:TypeError")
     quick_runs = 2500      # each seed is run twice: python and python -O
     thorough_runs = 60000
     rule = ("one evaluation = one simulated history (as C08: queries on unconnected, partially connected and "
@@ -664,6 +671,7 @@ class C07Plan(C04Plan):
 
 class C02Plan(RunPlan):
     prop = "C02"
+    expected_reach = ('F4', 'F5', 'same-normal-form-seen-again', 'C02.scale.checked')
     engine = "A"
     quick_runs = 2500
     thorough_runs = 100000
@@ -683,6 +691,7 @@ class C02Plan(RunPlan):
 
 class C15Plan(RunPlan):
     prop = "C15"
+    expected_reach = ('F5', 'blob-decoded-in-restarted-world', 'C15.load.after-restart.checked', 'decode-across-dimension-define')
     engine = "A"
     quick_runs = 2500
     thorough_runs = 60000
@@ -707,6 +716,7 @@ class C15Plan(RunPlan):
 
 class C13Plan(RunPlan):
     prop = "C13"
+    expected_reach = ('parsed-to-equal-named-unit', 'spelling-became-ambiguous-after-generation', 'C13.spelling.checked', 'C13.sweep.checked')
     engine = "A"
     quick_runs = 2500
     thorough_runs = 60000
